@@ -1277,3 +1277,68 @@ theorem C13.pd_adjoint_inner_fails_nodes_on_bdry :
   · simp [innerN, sumAxesL, cellWeight, axisWeight, fdAxisN, fd, fdNum, interior, assign, tbl,
       adjMethod, adjPad, evalTerms, evalTerm, den, IdxN.set, List.range_succ, Corner.pos]
     try norm_num
+
+
+/-! ### ROUND 5: the loops over the axes read from the source (`accProg`) -/
+
+/-- `Gradient._call`: the loop over the axes READ from the source (`accProg .grad`: per pass one
+`finite_diff(x_arr, axis, dx[axis], self.method, …)` written into component `axis`), as executed
+by the driver's `ndn op=grad` (`loopCompN`), is `gradientN` - by construction, decided on the
+generated program - so every `…N` theorem about `gradientN` is about the executed loop. -/
+theorem C13.gradient_loop_is_model {K : Type} [Field K] (m : Method) (p : Pad)
+    (shape : Nat → Nat) (c : K) (dx : Nat → K) (f : IdxN → K) (a : Nat) (x : IdxN) :
+    (accProg .grad).perAxis = true ∧
+    loopCompN den (fun mm => tbl mm p) m shape c dx f (accProg .grad).steps a x
+      = gradientN den (tbl m p) shape c dx f a x := by
+  simp [accProg, loopCompN, bodyN, stepValN, gradientN]
+
+/-- `Divergence._call`: the generated loop program (`finite_diff(x[axis], …, out=tmp)`;
+`out_arr[:] = tmp` on the first axis, `out_arr += tmp` after) interpreted by `loopAccN`
+(executed by `ndn op=div`) is `divergenceN`; by construction on the generated program. -/
+theorem C13.divergence_loop_is_model {K : Type} [Field K] (m : Method) (p : Pad)
+    (shape : Nat → Nat) (d : Nat) (c : K) (dx : Nat → K) (H : Nat → IdxN → K) (x : IdxN) :
+    (accProg .div).perAxis = false ∧
+    loopAccN den (fun mm => tbl mm p) m shape d c dx H (accProg .div).steps x
+      = divergenceN den (tbl m p) shape d c dx H x := by
+  refine ⟨rfl, ?_⟩
+  unfold loopAccN divergenceN
+  congr 1
+
+/-- `Laplacian._call`: the generated loop program (forward with `dx²`, `+=`; backward with
+`dx²`, `-=`; `out` zeroed) interpreted by `loopAccN` (executed by `ndn op=lap`) is
+`laplacianN`; by construction on the generated program. -/
+theorem C13.laplacian_loop_is_model {K : Type} [Field K] (m : Method) (p : Pad)
+    (shape : Nat → Nat) (d : Nat) (c : K) (dx : Nat → K) (f : IdxN → K) (x : IdxN) :
+    (accProg .lap).perAxis = false ∧
+    loopAccN den (fun mm => tbl mm p) m shape d c dx (fun _ => f) (accProg .lap).steps x
+      = laplacianN den (tbl .forward p) (tbl .backward p) shape d c dx f x := by
+  refine ⟨rfl, ?_⟩
+  unfold loopAccN laplacianN
+  congr 1
+
+/-- `Gradient.adjoint = −Divergence(…)` stated directly on the two EXECUTED, generated loops,
+every ndim: a semantic edit of either loop that keeps this identity is re-proved, one that
+breaks it is refuted (here or in the `…_loop_is_model` steps). -/
+theorem C13.loops_grad_div_adjoint {K : Type} [Field K] (m : Method) (p : Pad)
+    (shape : Nat → Nat) (d : Nat)
+    (h : ∀ a < d, sizeCheck guards (tbl m p) p (shape a) = none)
+    (h' : ∀ a < d, sizeCheck guards (tbl (adjMethod m) (adjPad p)) (adjPad p) (shape a) = none)
+    (dx : Nat → K) (F : IdxN → K) (H : Nat → IdxN → K) :
+    ∑ a ∈ range d, boxSumN shape d (fun x => H a x *
+        loopCompN den (fun mm => tbl mm p) m shape 0 dx F (accProg .grad).steps a x)
+      = - boxSumN shape d (fun x => F x *
+          loopAccN den (fun mm => tbl mm (adjPad p)) (adjMethod m) shape d 0 dx H
+            (accProg .div).steps x) := by
+  simp only [(C13.gradient_loop_is_model m p shape 0 dx F _ _).2,
+    (C13.divergence_loop_is_model (adjMethod m) (adjPad p) shape d 0 dx H _).2]
+  exact C13.gradN_divN_adjoint m p shape d h h' dx F H
+
+example (F : IdxN → ℚ) (H : Nat → IdxN → ℚ) :
+    ∑ a ∈ range 4, boxSumN (fun _ => 3) 4 (fun x => H a x *
+        loopCompN den (fun mm => tbl mm .order2) .central (fun _ => 3) 0 (fun _ => 2) F
+          (accProg .grad).steps a x)
+      = - boxSumN (fun _ => 3) 4 (fun x => F x *
+          loopAccN den (fun mm => tbl mm .order2Adj) .central (fun _ => 3) 4 0 (fun _ => 2) H
+            (accProg .div).steps x) :=
+  C13.loops_grad_div_adjoint .central .order2 _ 4 (fun _ _ => by decide) (fun _ _ => by decide)
+    _ F H
